@@ -255,6 +255,107 @@ pub fn purity_letters(seed: u64) -> Vec<(String, u8, Vec<u8>)> {
     v
 }
 
+
+/// One-picture letters (Sorenson mode, mostly 32x16, distinct contents, temporal references that
+/// collide on purpose) for the history sweep over fresh instances.
+pub fn history_letters(seed: u64) -> Vec<(&'static str, Arc<Vec<u8>>)> {
+    let a = |v: Vec<u8>| Arc::new(v);
+    let p_pic = |hdr: Hdr, specs: &[Spec], mbw: usize| -> Vec<u8> {
+        let v1 = hdr.v1();
+        let mut p = Pic { hdr, mbs: mbs_for(specs, mbw, v1, true) };
+        fix_last_flags(&mut p);
+        encode_bytes(&p)
+    };
+    vec![
+        ("I", a(encode_bytes(&noise_intra(shdr(32, 16, 0, 0, 6, 0), seed ^ 21)))),
+        ("P-moving", a(p_pic(shdr(32, 16, 1, 1, 6, 0), &[Spec::Inter((3, -2), false), Spec::NotCoded], 2))),
+        ("D-moving-intra", a(p_pic(shdr(32, 16, 2, 2, 6, 0), &[Spec::Intra, Spec::Inter((4, -4), false)], 2))),
+        ("I-rejected-mid-picture", a(bad_mid_picture(false))),
+        ("P-all-not-coded", a(encode_bytes(&Pic { hdr: shdr(32, 16, 1, 3, 6, 0), mbs: vec![Mb::NotCoded, Mb::NotCoded] }))),
+        ("I-cut-after-first-macroblock", a({
+            let mut p = noise_intra(shdr(32, 16, 0, 4, 7, 0), seed ^ 22);
+            p.mbs.truncate(1);
+            encode_bytes(&p)
+        })),
+        ("D-tr0-bright", a(encode_bytes(&Pic { hdr: shdr(32, 16, 2, 0, 6, 0), mbs: vec![Mb::intra_flat(220), Mb::inter((1, -1))] }))),
+        ("P-rejected-mid-picture", a({
+            let p = Pic { hdr: shdr(32, 16, 1, 5, 5, 0), mbs: vec![Mb::inter((1, 1)), Mb::Raw(vec![false, true, true, true, false, false, false, false, false, false, false, false, false, false, false, false, false, false])] };
+            encode_bytes(&p)
+        })),
+        ("I-16x16", a(encode_bytes(&Pic { hdr: shdr(16, 16, 0, 6, 6, 0), mbs: vec![Mb::intra_flat(90)] }))),
+        ("P-16x16-moving", a(encode_bytes(&Pic { hdr: shdr(16, 16, 1, 7, 6, 0), mbs: vec![Mb::inter((2, 3))] }))),
+    ]
+}
+
+fn run_history(letters: &[(&'static str, Arc<Vec<u8>>)], word: &[usize]) -> Vec<Obs> {
+    let mut st = H263State::new(options_from_bits(1));
+    word.iter()
+        .map(|&l| {
+            let o = decode_bytes(&mut st, &letters[l].1);
+            observe(&st, &o)
+        })
+        .collect()
+}
+
+/// Every history over `history_letters` up to `depth` calls, each executed on `instances` fresh
+/// decoders (every H263State builds its maps with their own hash seeds; the seeds themselves cannot
+/// be enumerated from outside, the instances sample them): all observation sequences must be equal.
+fn history_instances(rep: &Report, seed: u64, depth: usize, instances: usize) {
+    let letters = history_letters(seed);
+    let n = letters.len();
+    let mut words: Vec<Vec<usize>> = vec![];
+    for d in 1..=depth {
+        let total = n.pow(d as u32);
+        for mut k in 0..total {
+            let mut w = Vec::with_capacity(d);
+            for _ in 0..d {
+                w.push(k % n);
+                k /= n;
+            }
+            words.push(w);
+        }
+    }
+    let outcomes = std::sync::Mutex::new(std::collections::BTreeSet::new());
+    let accepted_after_reject = std::sync::atomic::AtomicU64::new(0);
+    words.par_iter().for_each(|w| {
+        let first = run_history(&letters, w);
+        let mut rejected = false;
+        for o in &first {
+            if o.0 != "Ok" {
+                rejected = true;
+            } else if rejected {
+                accepted_after_reject.fetch_add(1, std::sync::atomic::Ordering::Relaxed);
+                break;
+            }
+        }
+        for k in 1..instances {
+            let again = run_history(&letters, w);
+            if again != first {
+                let at = (0..first.len()).find(|&i| first[i] != again[i]).unwrap_or(0);
+                let names: Vec<&str> = w.iter().map(|&l| letters[l].0).collect();
+                rep.violation_lazy("C17/history-gives-different-results-on-fresh-instances", || {
+                    (
+                        format!("history {names:?} on fresh decoder #{k}: call {at} gives {:?}, on the first decoder it gave {:?}", again[at], first[at]),
+                        json!({"kind": "interleaving", "placement": "fresh-instances", "order": [], "instances": [{"name": format!("{names:?}"), "options": 1, "calls": w.iter().map(|&l| hex(&letters[l].1)).collect::<Vec<_>>()}]}),
+                    )
+                });
+                break;
+            }
+        }
+        if w.len() == depth {
+            let mut g = outcomes.lock().unwrap();
+            for o in first {
+                g.insert(o);
+            }
+        }
+    });
+    rep.add_states(words.len() as u64);
+    rep.add_nontrivial(words.len() as u64);
+    rep.add_transitions(words.iter().map(|w| (w.len() * instances) as u64).sum());
+    rep.extra("history_letters", json!(letters.iter().map(|l| l.0).collect::<Vec<_>>()));
+    rep.extra("histories_on_fresh_instances", json!({"depth": depth, "histories": words.len(), "instances_per_history": instances, "distinct_call_outcomes": outcomes.into_inner().unwrap().len(), "histories_with_an_accepted_call_after_a_rejected_one": accepted_after_reject.into_inner()}));
+}
+
 /// run a script alone, sequentially
 pub fn solo(s: &Script) -> Vec<Obs> {
     let mut st = H263State::new(options_from_bits(s.opts));
@@ -617,6 +718,8 @@ pub fn run(tier: Tier) -> Report {
             }
         }
     }
+    // every history over a ten-letter alphabet, on several fresh instances each
+    history_instances(&rep, seed, if tier.thorough() { 5 } else { 4 }, if tier.thorough() { 12 } else { 8 });
     // free-running threads: sampling, labelled
     let rounds = if tier.thorough() { 400 } else { 60 };
     for r in 0..rounds {
@@ -641,7 +744,7 @@ pub fn run(tier: Tier) -> Report {
     }
     rep.extra("synchronisation_inventory", inv);
     rep.set_rule(
-        "instances with their own histories (8 scripts of 3 calls: I/P/D, rejected mid-picture inputs, prediction without reference, both modes, all option sets): every interleaving (multiset permutation) of the calls of every pair and of triples of scripts, executed under an explicit scheduler on one thread and with one OS thread per instance (token passing); every instance's observations (Ok/Err, hash of picture+header after each call) must equal its solo run; every ordered pair of ~90 one-picture letters decoded back to back on one thread by two fresh decoders (single-call purity); first-initialisation order in fresh child processes; 32 fresh instances per script (hash seeds: sampling); free-running threads (sampling); non-trivial = every interleaving (two or more instances)",
+        "instances with their own histories (8 scripts of 3 calls: I/P/D, rejected mid-picture inputs, prediction without reference, both modes, all option sets): every interleaving (multiset permutation) of the calls of every pair and of triples of scripts, executed under an explicit scheduler on one thread and with one OS thread per instance (token passing); every instance's observations (Ok/Err, hash of picture+header after each call) must equal its solo run; every ordered pair of ~90 one-picture letters decoded back to back on one thread by two fresh decoders (single-call purity); first-initialisation order in fresh child processes; 32 fresh instances per script and 8/12 fresh instances for every history of up to 4/5 calls over a ten-letter alphabet (accepted, rejected and cut I/P/D pictures, colliding temporal references, a second size) - the histories are enumerated, the hash seeds of the instances are sampled; free-running threads (sampling); non-trivial = every interleaving (two or more instances)",
     );
     rep.assume("the crates contain no lock, atomic, channel, unsafe or static mut (inventory in the evidence), so a call on one instance has no scheduling point visible to a controlled scheduler: interleavings are explored at call granularity");
     rep
@@ -686,6 +789,17 @@ pub fn replay(case: &serde_json::Value) {
         .flatten()
         .map(|i| Script { name: "replayed", opts: i["options"].as_u64().unwrap_or(1) as u8, calls: i["calls"].as_array().into_iter().flatten().map(|c| Arc::new(crate::bits::unhex(c.as_str().unwrap_or("")))).collect() })
         .collect();
+    if case["placement"].as_str() == Some("fresh-instances") {
+        let mut seen: std::collections::BTreeMap<Vec<Obs>, usize> = Default::default();
+        for _ in 0..64 {
+            *seen.entry(solo(&insts[0])).or_insert(0) += 1;
+        }
+        println!("history {} on 64 fresh decoders: {} distinct observation sequence(s)", case["instances"][0]["name"], seen.len());
+        for (o, c) in &seen {
+            println!("  {c:2} x {o:?}");
+        }
+        return;
+    }
     let cfg: Vec<&Script> = insts.iter().collect();
     let mut order: Vec<usize> = case["order"].as_array().into_iter().flatten().map(|v| v.as_u64().unwrap() as usize).collect();
     if order.is_empty() {
